@@ -145,8 +145,10 @@ func (p *piboot) SetBootVars(values map[string]string) error {
 		}
 		env.Set(k, v)
 		dirtyEnv = true
-		// Cases that change the bootloader configuration
-		if k == "snapd_recovery_mode" || k == "kernel_status" {
+		// Cases that change the bootloader configuration: the mode, the
+		// status, and also the kernel (or try kernel) that config.txt (or
+		// tryboot.txt) must point to while the status stays the same
+		if k == "snapd_recovery_mode" || k == "kernel_status" || k == "snap_kernel" || (k == "snap_try_kernel" && v != "") {
 			reconfigBootloader = true
 		}
 		if k == "snap_try_kernel" && v == "" {
